@@ -1,0 +1,56 @@
+//go:build verif
+
+package collection
+
+import (
+	ato "sync/atomic"
+)
+
+// The kinds of synchronisation points reported to the monitor.  Every point is
+// reported immediately BEFORE the operation it names and never from inside a
+// critical section.
+const (
+	verifLock      uint8 = iota + 1 // about to lock the queue's mutex
+	verifLockClose                  // about to lock the mutex and close the token channel
+	verifLockReset                  // about to lock the mutex and reset the queue
+	verifSend                       // about to send a token (may block when full)
+	verifRecv                       // about to receive a token (may block when empty)
+	verifSpawn                      // about to start a helper goroutine
+)
+
+// Exported copies for the monitor.
+const (
+	VerifLock      = verifLock
+	VerifLockClose = verifLockClose
+	VerifLockReset = verifLockReset
+	VerifSend      = verifSend
+	VerifRecv      = verifRecv
+	VerifSpawn     = verifSpawn
+)
+
+var verifHook ato.Pointer[func(kind uint8, queue any)]
+
+// VerifSetHook installs (or with nil removes) the monitor callback.
+func VerifSetHook(hook func(kind uint8, queue any)) {
+	if hook == nil {
+		verifHook.Store(nil)
+		return
+	}
+	verifHook.Store(&hook)
+}
+
+func verifPoint(kind uint8, queue any) {
+	var hook = verifHook.Load()
+	if hook != nil {
+		(*hook)(kind, queue)
+	}
+}
+
+// VerifTokens returns the current token channel, read under the queue's own
+// mutex so that the monitor never races with the queue.
+func (v *queue_[V]) VerifTokens() chan bool {
+	v.mutex_.Lock()
+	var tokens = v.available_
+	v.mutex_.Unlock()
+	return tokens
+}
